@@ -106,6 +106,7 @@ func exploreScenario(res *vout.Result, prop, scenario string, params map[string]
 		}
 	}
 	e.Run()
+	res.Add("prefix_retries", int64(e.Retries))
 	if e.Stopped {
 		res.NotExhaustive("internal deadline reached in scenario " + scenario)
 	}
